@@ -1519,6 +1519,9 @@ CMR_ERROR CMRdblmatCreateFromDenseStream(CMR* cmr, FILE* stream, CMR_DBLMAT** pr
       if (numRead < 1)
       {
         CMRraiseErrorMessage(cmr, "Could not read matrix entry in row %zu and column %zu.", row, column);
+        CMRfreeBlockArray(cmr, &entryColumns);
+        CMRfreeBlockArray(cmr, &entryValues);
+        CMRdblmatFree(cmr, presult);
         return CMR_ERROR_INPUT;
       }
 
@@ -1591,6 +1594,8 @@ CMR_ERROR CMRintmatCreateFromDenseStream(CMR* cmr, FILE* stream, CMR_INTMAT** pr
       if (numRead < 1)
       {
         CMRraiseErrorMessage(cmr, "Could not read matrix entry in row %zu and column %zu.", row, column);
+        CMRfreeBlockArray(cmr, &entryColumns);
+        CMRfreeBlockArray(cmr, &entryValues);
         CMRintmatFree(cmr, presult);
         return CMR_ERROR_INPUT;
       }
